@@ -10,7 +10,7 @@ names / bindings / defined-or-undefined, relocation sites, the layout script (me
 SECTION / ALIGN / DEFINESYMBOL / SECTIONDATA items), partial / staged (partial link of a prefix, result
 linked again) / entry / extra symbols.
 Symbolic per shape (decided by the solver): every data byte of every input section, every memory
-LOCATION and SIZE, every symbol offset, the values of extra symbols, and the alignment of up to three
+LOCATION and SIZE, every symbol offset, the values of extra symbols, and the alignment of up to two
 sections / ALIGN directives marked "S" (domain {1,2,4,8,16}; {4,8,16} for sections holding an absaddr32 site).
 
 Obligations (per explored path of the real linker; see LinkHarness.post).
@@ -29,12 +29,12 @@ BOUNDS = {
     "quick": {"shapes": "15 hand-written + seeded sample up to 64 (family: 1-3 objects, 1-3 sections each from "
                         "{code,data,bss}, lengths 0-9, 0-3 symbols per object, 0-2 absaddr32 sites per object, "
                         "0-2 memories with SECTION/ALIGN/DEFINESYMBOL/SECTIONDATA items, partial, staged, entry, extra symbols)",
-              "memory LOCATION": "[0, 2**32-256]", "memory SIZE": "[0, 2**32-1]", "section bytes": "every value",
-              "symbol offset": "[0, section length]", "symbolic alignments": "{1,2,4,8,16}, at most 3 per shape",
+              "memory LOCATION": "[0, 2**32-256] (two-memory shapes: one memory over all residues, the other a multiple of 16)", "memory SIZE": "[0, 2**32-1]", "section bytes": "every value",
+              "symbol offset": "[0, section length]", "symbolic alignments": "{1,2,4,8,16}, at most 2 per shape",
               "extra symbol value": "[0, 2**32-1]"},
     "thorough": {"shapes": "15 hand-written + seeded sample up to 600 (same family)",
-                 "memory LOCATION": "[0, 2**32-256]", "memory SIZE": "[0, 2**32-1]", "section bytes": "every value",
-                 "symbol offset": "[0, section length]", "symbolic alignments": "{1,2,4,8,16}, at most 3 per shape",
+                 "memory LOCATION": "[0, 2**32-256] (two-memory shapes: one memory over all residues, the other a multiple of 16)", "memory SIZE": "[0, 2**32-1]", "section bytes": "every value",
+                 "symbol offset": "[0, section length]", "symbolic alignments": "{1,2,4,8,16}, at most 2 per shape",
                  "extra symbol value": "[0, 2**32-1]"},
 }
 OUTSIDE = ["alignments that are not powers of two", "section lengths > 9, more than 3 objects",
@@ -47,7 +47,7 @@ ASSUMPTIONS = ["piece offsets inside an output section follow ref/linkspec.merge
                "absaddr32 sites are 4-aligned inside their section and live in sections aligned >= 4 (ppci asserts it)",
                "'fails with an error' = CompilerError for duplicate / undefined / overfull"]
 SHIMS_USED = ["isinstance", "int", "range", "bytes", "bytearray", "bool"]
-JOB_TIMEOUT = {"quick": 170, "thorough": 900}
+JOB_TIMEOUT = {"quick": 600, "thorough": 1800}
 
 SEC_NAMES = ["code", "data", "bss"]
 ALIGNS = [1, 2, 4, 8, 16]
@@ -111,6 +111,8 @@ class LinkHarness(Harness):
         mems = []
         for mi, m in enumerate(sh.get("layout") or []):
             loc = mk.int(f"m{mi}.loc", 0, MAXLOC)
+            if m.get("fix"):
+                mk.assume(loc % 16 == 0)     # see BOUNDS: only one memory per shape ranges over all residues
             size = mk.int(f"m{mi}.size", 0, (1 << 32) - 1)
             als = {}
             for k, it in enumerate(m["inputs"]):
@@ -189,6 +191,8 @@ class LinkHarness(Harness):
         return dict(secs=secs, syms=syms, imgs=imgs, rels=rels, entry=entry)
 
     def run(self, inp):
+        import logging
+        logging.getLogger("linker").setLevel(logging.CRITICAL)
         from ppci.binutils.linker import link
         from ppci.common import CompilerError
         sh = self.shape
@@ -568,8 +572,11 @@ def O(secs, syms=(), rels=()):
     return dict(secs=list(secs), syms=list(syms), rels=list(rels))
 
 
-def M(name, *inputs):
-    return dict(name=name, inputs=[list(i) for i in inputs])
+def M(name, *inputs, fix=False):
+    d = dict(name=name, inputs=[list(i) for i in inputs])
+    if fix:
+        d["fix"] = True
+    return d
 
 
 def hand_shapes():
@@ -582,7 +589,7 @@ def hand_shapes():
     sh.append(dict(objs=[O([S("code", 8, 4), S("data", 3, 1)], [Y("f", "global", 0), Y("d0", "global", 1)], [R(0, 4, 1)]),
                          O([S("data", 5, 2), S("code", 4, 4)], [Y("d1", "global", 0), Y("f", "global", None)], [R(1, 0, 1)]),
                          O([S("data", 2, "S")], [Y("d2", "local", 0)])],
-                   layout=[M("flash", ("sec", "code")), M("ram", ("sec", "data"))]))
+                   layout=[M("flash", ("sec", "code"), fix=True), M("ram", ("sec", "data"))]))
     # 3 duplicate global definition
     sh.append(dict(objs=[O([S("code", 4)], [Y("a", "global", 0)]), O([S("code", 4)], [Y("a", "global", 0)])],
                    layout=[M("flash", ("sec", "code"))]))
@@ -604,7 +611,7 @@ def hand_shapes():
     sh.append(dict(objs=[O([S("data", 6, 4), S("code", 4)], [Y("v", "global", 0)], [R(1, 0, 0)]),
                          O([S("data", 3, 1)], [Y("w", "global", 0)])],
                    layout=[M("flash", ("sec", "code"), ("def", "ld"), ("secdata", "data"), ("def", "ld_end")),
-                           M("ram", ("sec", "data"))]))
+                           M("ram", ("sec", "data"), fix=True)]))
     # 9 no layout at all, final link
     sh.append(dict(objs=[O([S("code", 4), S("data", 1, 1)], [Y("a", "global", 1)], [R(0, 0, 0)]),
                          O([S("data", 2, 2)], [Y("b", "local", 0)])], layout=None))
@@ -625,7 +632,7 @@ def hand_shapes():
     # 15 empty sections, section named in the layout but absent, section absent from the layout
     sh.append(dict(objs=[O([S("code", 0, "S"), S("data", 0, 8), S("bss", 2, 1)], [Y("a", "global", 0), Y("b", "global", 1)]),
                          O([S("code", 1, 1)], [Y("c", "global", 0)])],
-                   layout=[M("flash", ("sec", "code"), ("sec", "data"), ("align", 8), ("def", "e")), M("ram", ("sec", "zz"))]))
+                   layout=[M("flash", ("sec", "code"), ("sec", "data"), ("align", 8), ("def", "e")), M("ram", ("sec", "zz"), fix=True)]))
     return sh
 
 
@@ -633,7 +640,7 @@ def gen_shape(rng):
     n_obj = rng.choice([1, 2, 2, 2, 3, 3])
     mode = rng.choice(["clean"] * 7 + ["dup", "undef", "any"])
     link_mode = rng.choice(["layout"] * 7 + ["none", "partial", "partial"])
-    budget = [rng.choice([1, 2, 2, 3])]      # symbolic alignments left
+    budget = [rng.choice([1, 1, 1, 2])]      # symbolic alignments left
 
     def pick_al(reloc):
         if budget[0] > 0 and rng.random() < 0.45:
@@ -745,6 +752,8 @@ def gen_shape(rng):
                     inputs.append(["def", f"ld{ndef}"])
                     ndef += 1
             layout.append(dict(name=f"mem{mi}", inputs=inputs))
+        if n_mem == 2:
+            layout[rng.randrange(2)]["fix"] = True
         for n in lay_defs:
             m = rng.choice(layout)
             m["inputs"].insert(rng.randint(0, len(m["inputs"])), ["def", n])
@@ -794,5 +803,6 @@ def jobs(tier, seed):
     js = [("mk_link", dict(shape=s, idx=i)) for i, s in enumerate(shapes(tier, seed))]
     only = os.environ.get("VERIF_ONLY")
     if only:
-        js = [j for j in js if only in repr(j) or only in describe(j[1]["shape"]) or only == f"#{j[1]['idx']}"]
+        js = [j for j in js if only in repr(j) or only in describe(j[1]["shape"]) or only == f"#{j[1]['idx']}"
+              or (only == "hand" and j[1]["idx"] < 15)]
     return js
